@@ -196,8 +196,8 @@ def raw_class(text):
 
 
 def repair_shape(raw):
-    """The known shapes (unchanged /repo, recorded finding F48) in which legitimate passes of the full cleaning make an
-    invalid content valid. Anything else is not excused."""
+    """The shapes in which, before fix F48, passes of the full cleaning made an invalid content valid (kept to label the
+    replays; none is excused)."""
     if "\t" in raw:
         return "tab"
     if raw.rstrip(" \n").endswith("\\"):
@@ -221,12 +221,12 @@ def raw_content_oracle(ctx, files_read, by_strategy, files):
         tn, tf = list(jn["programs"][p]["taxa"]), list(jf["programs"][p]["taxa"])
         is_err = lambda t: len(t) == 1 and t[0].startswith("meta/ast/") and t[0] != "meta/ast/EmptyProgramError"
         if is_err(tn) and not is_err(tf):
-            shape = repair_shape(raw)
-            ctx.dist(f"raw-oracle.repaired.{shape or 'UNKNOWN'}")
+            shape = repair_shape(raw)  # informative only since fix F48: no shape is tolerated any more
+            ctx.dist(f"raw-oracle.repaired.{shape or 'other'}")
             ctx.violations.append({
                 "what": f"{p}: the raw content is not valid Python ({raw_class(raw)}), --cleanup none reports {tn[0]}, "
                         f"--cleanup full reports {'an empty program' if tf == ['meta/ast/EmptyProgramError'] else 'a valid program'}",
-                "signature": REPAIR_SIG if shape else None,
+                "signature": None,
                 "replay": {"kind": "raw-content", "files": {p: files[p]}, "shape": shape,
                            "impl": {"cleanup_none": tn, "cleanup_full": tf[:8], "stored_full": jf["programs"][p]["source"][:300]},
                            "model": "the externals are recorded on the stored text: the model cannot see this",
@@ -261,6 +261,7 @@ class Oracle:
         self.parser = ProgramParser()
         self.clean = {"full": {}, "none": {}}
         self.prepare = {}
+        self.gate = {}
         self.prepare_errors = []
         self.parse = {}
 
@@ -280,6 +281,16 @@ class Oracle:
                 except Exception as e:  # noqa
                     t[raw] = exc_info(e)
         return t[raw]
+
+    def raw_gate_of(self, raw):
+        """Does `ast.parse(raw)` raise (any Exception)? The model only needs ok / error for the raw text."""
+        if raw not in self.gate:
+            try:
+                ast.parse(raw)
+                self.gate[raw] = {"empty": True}  # placeholder for "parses": the model only tests the failure
+            except (Exception, RecursionError) as e:  # noqa
+                self.gate[raw] = exc_info(e)
+        return self.gate[raw]
 
     def prepare_of(self, text):
         from paroxython.list_programs import get_program
@@ -331,13 +342,24 @@ class Oracle:
 
     def tables(self, strategy, raws):
         cl, pr, pa = [], [], []
+        raw_gate = []
         for raw in dict.fromkeys(raws):
             c = self.clean_of(strategy, raw) if strategy else {"ok": raw}
             cl.append([raw, c])
-            text = c["ok"] if "ok" in c else raw  # safe_full_cleaning: fall back to the uncleaned text
+            # safe_full_cleaning (fixes c7d362e, F48): a text that does not parse is left as it is; so is one whose
+            # cleaning raises
+            gate = self.raw_gate_of(raw) if strategy == "full" else None
+            if gate is not None:
+                raw_gate.append([raw, gate])
+            text = raw if (gate is not None and "exc" in gate) else (c["ok"] if "ok" in c else raw)
             s = self.prepare_of(text)
             pr.append([text, s])
             pa.append([s, self.parse_of(s)])
+        # the model asks `parse` about the RAW text too (only whether it fails): cheap entries, never overriding the
+        # full entry of a stored source with the same text
+        for raw, gate in raw_gate:
+            if raw not in [k for k, _ in pa]:
+                pa.append([raw, gate])
         return {"clean": cl, "prepare": [list(x) for x in dict.fromkeys(map(tuple, pr))],
                 "parse": [x for i, x in enumerate(pa) if x[0] not in [y[0] for y in pa[:i]]]}
 
@@ -377,7 +399,8 @@ def judge(ctx, drv, orc, files, root, out_dir, strategy):
     info = []
     for p in order:
         c = next(v for k, v in tables["clean"] if k == raws[p])
-        text = c["ok"] if "ok" in c else raws[p]
+        gate = orc.raw_gate_of(raws[p]) if strategy == "full" else None
+        text = raws[p] if (gate is not None and "exc" in gate) else (c["ok"] if "ok" in c else raws[p])
         s = next(v for k, v in tables["prepare"] if k == text)
         pr = next(v for k, v in tables["parse"] if k == s)
         info.append({"path": p, "clean": "ok" if "ok" in c else c["exc"],
@@ -414,7 +437,8 @@ def judge(ctx, drv, orc, files, root, out_dir, strategy):
         if "paroxython" in raws[p].lower() or p not in impl["json"]["programs"]:
             continue
         c = next(v_ for k_, v_ in tables["clean"] if k_ == raws[p])
-        expected = (c["ok"] if "ok" in c else raws[p]).strip()
+        gate = orc.raw_gate_of(raws[p]) if strategy == "full" else None
+        expected = (raws[p] if (gate is not None and "exc" in gate) else (c["ok"] if "ok" in c else raws[p])).strip()
         stored = impl["json"]["programs"][p]["source"]
         if stored != expected:
             v.update(kind="violation", what=f"stored source of {p} is not verbatim the cleaned, hint-free source",
@@ -868,6 +892,10 @@ def run(ctx):
     ]
     ctx.assumptions += [
         "texts contain no Paroxython hint comment (property quantifier); nesting below the interpreter's limits",
+        "NOT flagged (same under both strategies, from get_program's final strip(), not from the cleaning): a file whose first "
+        "line is indented ('\\tx = 1': raw IndentationError) is stored stripped and reported valid; a file made only of "
+        "U+001C-U+001F or other Unicode white space (raw SyntaxError) is stored empty and reported meta/ast/EmptyProgramError; "
+        "a line ending with U+2028 / VT is stored without it (notes/findings/C14-full-cleaning-repairs-invalid.md)",
         "ast.parse raises only SyntaxError/ValueError instances whose class name has no colon (ParseCaught)",
     ]
     if (not ctx.proofs_ok or ctx.broken) and not any(v.get("signature") is None for v in ctx.violations):
